@@ -100,30 +100,39 @@ var (
 // InstallHook routes reader/generation hook events to the run owning the object.
 func InstallHook(prev func(string, ...interface{})) func(string, ...interface{}) {
 	return func(ev string, args ...interface{}) {
-		if strings.HasPrefix(ev, "reader.") || strings.HasPrefix(ev, "gen.") || strings.HasPrefix(ev, "cg.") {
-			if len(args) > 0 {
-				runsMu.RLock()
-				var rr *run
-				var mid int
-				for r := range runs {
-					r.mu.Lock()
-					if m, ok := r.byObj[args[0]]; ok {
-						rr, mid = r, m
-					}
-					r.mu.Unlock()
-					if rr != nil {
-						break
-					}
-				}
-				runsMu.RUnlock()
-				if rr != nil {
-					rr.hook(ev, mid, args)
-				} else if strings.HasPrefix(ev, "gen.") {
-					// a Generation is not known before Next returns it: attribute it by group later
-					pendingGen(ev, args)
-				}
-				return
+		if len(args) > 0 && strings.HasPrefix(ev, "gen.") {
+			// a Generation is created inside the library: its first events (heartbeat loop Start) come
+			// before the application has seen it. They are buffered until Next returns the generation.
+			pendMu.Lock()
+			o, known := genOwner[args[0]]
+			if !known {
+				pend[args[0]] = append(pend[args[0]], pendEv{ev, args})
 			}
+			pendMu.Unlock()
+			if known {
+				o.r.hook(ev, o.mid, args, true)
+			}
+			return
+		}
+		if len(args) > 0 && (strings.HasPrefix(ev, "reader.") || strings.HasPrefix(ev, "cg.")) {
+			runsMu.RLock()
+			var rr *run
+			var mid int
+			for r := range runs {
+				r.mu.Lock()
+				if m, ok := r.byObj[args[0]]; ok {
+					rr, mid = r, m
+				}
+				r.mu.Unlock()
+				if rr != nil {
+					break
+				}
+			}
+			runsMu.RUnlock()
+			if rr != nil {
+				rr.hook(ev, mid, args, true)
+			}
+			return
 		}
 		if prev != nil {
 			prev(ev, args...)
@@ -131,12 +140,15 @@ func InstallHook(prev func(string, ...interface{})) func(string, ...interface{})
 	}
 }
 
-// Generations are created inside the library; their first hook events (heartbeat loop Start) arrive
-// before the application has seen them. They are buffered per *Generation and flushed when the
-// generation is attributed to a member (at cg.offered, which carries the member's ConsumerGroup).
+type owner struct {
+	r   *run
+	mid int
+}
+
 var (
-	pendMu sync.Mutex
-	pend   = map[interface{}][]pendEv{}
+	pendMu   sync.Mutex
+	pend     = map[interface{}][]pendEv{}
+	genOwner = map[interface{}]owner{}
 )
 
 type pendEv struct {
@@ -144,14 +156,22 @@ type pendEv struct {
 	args []interface{}
 }
 
-func pendingGen(ev string, args []interface{}) {
+// adopt attributes a generation to a member and emits, in order, the events buffered for it.
+func (r *run) adopt(gen interface{}, mid int) {
 	pendMu.Lock()
-	pend[args[0]] = append(pend[args[0]], pendEv{ev, args})
+	genOwner[gen] = owner{r, mid}
+	pe := pend[gen]
+	delete(pend, gen)
+	for _, x := range pe {
+		r.hook(x.ev, mid, x.args, false)
+	}
 	pendMu.Unlock()
 }
 
-func (r *run) hook(ev string, mid int, a []interface{}) {
-	r.pass("hook:" + ev + fmt.Sprintf(":%d", mid))
+func (r *run) hook(ev string, mid int, a []interface{}, gated bool) {
+	if gated {
+		r.pass("hook:" + ev + fmt.Sprintf(":%d", mid))
+	}
 	switch ev {
 	case "reader.start":
 		offs := map[string]interface{}{}
@@ -560,17 +580,7 @@ func (r *run) cgLoop(m *member, fns, early, earlyMs int) {
 				}
 				continue
 			}
-			r.mu.Lock()
-			r.byObj[gen] = m.id
-			r.mu.Unlock()
-			// flush the hook events the library emitted before the generation was known to us
-			pendMu.Lock()
-			pe := pend[gen]
-			delete(pend, gen)
-			pendMu.Unlock()
-			for _, x := range pe {
-				r.hook(x.ev, m.id, x.args)
-			}
+			r.adopt(gen, m.id)
 			asg := map[string]interface{}{}
 			for t, ps := range gen.Assignments {
 				for _, p := range ps {
@@ -638,7 +648,7 @@ func Run(sc *Script) []trace.Event {
 	r.cl.Intercept = r.intercept
 	r.cl.OnJournal = r.journal
 	r.rec.Emit(trace.Event{"ev": "cfg", "id": sc.ID, "mode": sc.Mode, "stored": stored, "startOffset": sc.StartOffset,
-		"sync": sc.CommitMs == 0, "heartbeatMs": sc.HeartbeatMs, "backoffMs": sc.BackoffMs})
+		"sync": sc.CommitMs == 0, "heartbeatMs": sc.HeartbeatMs, "backoffMs": sc.BackoffMs, "watch": sc.Watch})
 
 	closeMember := func(m *member, wait bool) {
 		if m.closed {
@@ -762,6 +772,18 @@ func Run(sc *Script) []trace.Event {
 			t.Partitions = append(t.Partitions, np)
 			r.cl.Unlock()
 			r.rec.Emit(trace.Event{"ev": "addpartition", "t": st.T})
+		case "removepartition": // the topic was deleted and re-created with one partition less
+			r.cl.Lock()
+			if t := r.cl.Topics[st.T]; t != nil && len(t.Partitions) > 0 {
+				t.Partitions = t.Partitions[:len(t.Partitions)-1]
+			}
+			r.cl.Unlock()
+			r.rec.Emit(trace.Event{"ev": "addpartition", "t": st.T, "how": "removed"})
+		case "deletetopic": // metadata answers UnknownTopicOrPartition from now on
+			r.cl.Lock()
+			delete(r.cl.Topics, st.T)
+			r.cl.Unlock()
+			r.rec.Emit(trace.Event{"ev": "addpartition", "t": st.T, "how": "deleted"})
 		case "sleep":
 			time.Sleep(time.Duration(st.Ms) * time.Millisecond)
 		case "hold":
